@@ -413,7 +413,7 @@ def run_shard(shard, env):
 
         probes = Probes()
         _ts_code[0] = probes.ts_probe.__code__
-        term_image.set_query_timeout(3.0)  # generous: a late reply must not look like none
+        term_image.set_query_timeout(10.0)  # generous: a late reply must not look like none
         if "replay" in shard:
             c = shard["replay"]
             if c.get("kind") == "stress":
